@@ -646,4 +646,45 @@ def languageLex (s : Str) : Bool :=
   | p :: ps => primaryTag p && ps.all subTag
   | [] => false
 
+/-! ## XML names: XML 1.0 (Fifth Edition) productions [4] NameStartChar, [4a] NameChar, [5] Name, [7] Nmtoken;
+Namespaces in XML [4] NCName (a Name without colon); XSD 1.1 Part 2 3.4.4 – 3.4.11 -/
+
+/-- [4] NameStartChar without the colon -/
+def nameStartNoColon : List (Nat × Nat) :=
+  [(0x41, 0x5B), (0x5F, 0x60), (0x61, 0x7B), (0xC0, 0xD7), (0xD8, 0xF7), (0xF8, 0x300), (0x370, 0x37E), (0x37F, 0x2000),
+   (0x200C, 0x200E), (0x2070, 0x2190), (0x2C00, 0x2FF0), (0x3001, 0xD800), (0xF900, 0xFDD0), (0xFDF0, 0xFFFE),
+   (0x10000, 0xF0000)]
+
+/-- [4a] NameChar without the colon: NameStartChar | "-" | "." | [0-9] | #xB7 | [#x0300-#x036F] | [#x203F-#x2040] -/
+def nameCharNoColon : List (Nat × Nat) :=
+  nameStartNoColon ++ [(0x2D, 0x2F), (0x30, 0x3A), (0xB7, 0xB8), (0x300, 0x370), (0x203F, 0x2041)]
+
+def colon : List (Nat × Nat) := [(0x3A, 0x3B)]
+
+def inSet (t : List (Nat × Nat)) (c : Char) : Bool := t.any fun r => decide (r.1 ≤ c.toNat) && decide (c.toNat < r.2)
+
+/-- NCName ::= NameStartChar-without-colon (NameChar-without-colon)* -/
+def ncNameLex : Str → Bool
+  | [] => false
+  | c :: r => inSet nameStartNoColon c && r.all (inSet nameCharNoColon)
+
+/-- Name ::= NameStartChar (NameChar)* -/
+def nameLex : Str → Bool
+  | [] => false
+  | c :: r => inSet (nameStartNoColon ++ colon) c && r.all (inSet (nameCharNoColon ++ colon))
+
+/-- Nmtoken ::= (NameChar)+ -/
+def nmtokenLex : Str → Bool
+  | [] => false
+  | c :: r => inSet (nameCharNoColon ++ colon) c && r.all (inSet (nameCharNoColon ++ colon))
+
+/-- all ways of writing `t = p ++ ':' :: l` -/
+def colonSplits : Str → List (Str × Str)
+  | [] => []
+  | c :: r => (if c == ':' then [([], r)] else []) ++ (colonSplits r).map fun pl => (c :: pl.1, pl.2)
+
+/-- Namespaces in XML [7] QName ::= PrefixedName | UnprefixedName, PrefixedName ::= NCName ':' NCName -/
+def qNameLex (t : Str) : Bool :=
+  ncNameLex t || (colonSplits t).any fun pl => ncNameLex pl.1 && ncNameLex pl.2
+
 end EPV.XSD
